@@ -81,7 +81,7 @@ def run(ctx):
     entries = PL._entries()
     loops = []
     for ei, E in enumerate(entries):
-        for h in range((2 if E.slow else 4) if ctx.is_quick else (12 if E.slow else 40)):
+        for h in range((3 if E.slow else 12) if ctx.is_quick else (15 if E.slow else 80)):
             loops.append(make_loop((ctx.seed, ei, h, 1414), ei))
     outs = pmap(_run_loop, loops, chunksize=1)
     terms, meta = [], []
